@@ -155,6 +155,39 @@ def array_decoders(ctx, L):
              'elements are decoded consecutively with the element codec'),
             ('return (values, cursor)', 'returns the values and the bytes consumed')):
         L.check(piece in src, 'C02.array-decode', 'decode_scalar_array|' + piece[:40], f.site(), why, '')
+    # origin of the decoded values: every list the function returns is filled only from the element codec (a shortcut that
+    # builds the values another way bypasses signedness / byte order / enum lookup of the element type)
+    n_ret = 0
+    for r in [x for x in f.walk() if isinstance(x, ast.Return)]:
+        n_ret += 1
+        v = r.value.elts[0] if isinstance(r.value, ast.Tuple) and len(r.value.elts) == 2 else None
+        ok, why = False, 'the return value is not a (values, size) pair'
+        if isinstance(v, ast.List) and not v.elts:
+            ok = True
+        elif isinstance(v, ast.Name):
+            ok, why = True, ''
+            for x in f.walk():
+                if isinstance(x, ast.Assign) and any(v.id in [n.id for n in ast.walk(t) if isinstance(n, ast.Name)] for t in x.targets):
+                    if not (len(x.targets) == 1 and isinstance(x.targets[0], ast.Name) and isinstance(x.value, ast.List) and not x.value.elts):
+                        ok, why = False, '`%s` is assigned `%s`' % (v.id, unparse(x.value))
+                elif isinstance(x, ast.AugAssign) and isinstance(x.target, ast.Name) and x.target.id == v.id:
+                    ok, why = False, '`%s` is extended by `%s`' % (v.id, unparse(x.value))
+                elif (isinstance(x, ast.Call) and isinstance(x.func, ast.Attribute) and isinstance(x.func.value, ast.Name)
+                      and x.func.value.id == v.id):
+                    src_ok = False
+                    if x.func.attr == 'append' and len(x.args) == 1 and isinstance(x.args[0], ast.Name):
+                        defs = [a for a in f.walk() if isinstance(a, ast.Assign) and x.args[0].id in
+                                [n.id for t in a.targets for n in ast.walk(t) if isinstance(n, ast.Name)]]
+                        src_ok = bool(defs) and all(isinstance(a.targets[0], ast.Tuple) and isinstance(a.targets[0].elts[0], ast.Name)
+                                                    and a.targets[0].elts[0].id == x.args[0].id and isinstance(a.value, ast.Call)
+                                                    and unparse(a.value.func) == f.params[0] + '._decode' for a in defs)
+                    if not src_ok:
+                        ok, why = False, '`%s` is filled by `%s`' % (v.id, unparse(x))
+        else:
+            why = 'the returned values are `%s`' % (unparse(v) if v is not None else unparse(r.value))
+        L.check(ok, 'C02.array-decode', 'decode_scalar_array|origin|' + norm_key(f, r),
+                f.site(r), 'decoded elements must come from the element codec `%s._decode` only: %s' % (f.params[0], why), unparse(r))
+    L.check(n_ret >= 1, 'C02.array-decode', 'decode_scalar_array|returns', f.site(), 'the function returns (values, size)', '')
     for q, piece in (('fixed_scalar_array._decode_impl', 'self[:], size = decode_scalar_array(self._TYPE, data, pos, endianness, len(self))'),
                      ('bound_scalar_array._decode_impl', 'self[:], size = decode_scalar_array(self._TYPE, data, pos, endianness, len_hint)')):
         g = cont.func(q)
